@@ -21,12 +21,13 @@ STR_KEYS = {"default_realm": ["TEST.GOKRB5", "EXAMPLE.COM", "a.b"], "default_key
 
 def render_dur(d):
     f = d["fmt"]
+    pad = d.get("pad", 0)          # zero padding of the first number (layout noise: numbers are decimal whatever their leading zeros)
     if f == "sec":
-        return str(d["s"])
+        return "%0*d" % (pad, d["s"])
     if f == "hm":
-        return "%d:%02d" % (d["h"], d["m"])
+        return "%0*d:%02d" % (pad, d["h"], d["m"])
     if f == "hms":
-        return "%d:%02d:%02d" % (d["h"], d["m"], d["s"])
+        return "%0*d:%02d:%02d" % (pad, d["h"], d["m"], d["s"])
     if f == "bad":
         return d["text"]
     out = ""
@@ -44,9 +45,12 @@ def gen_model(rnd, structure="ok", bad_value=False):
         lib.append({"key": k, "kind": "bool", "spelling": rnd.choice(TRUE_SP if v else FALSE_SP)})
     for k in rnd.sample(DUR_KEYS, rnd.randint(0, 3)):
         f = rnd.choice(["sec", "dhms", "dhms", "hm", "hms"])
-        d = {"fmt": f, "d": rnd.choice([0, 1, 7, 30]), "h": rnd.choice([0, 1, 10, 23]), "m": rnd.choice([0, 5, 59]), "s": rnd.choice([0, 1, 30, 59])}
+        d = {"fmt": f, "d": rnd.choice([0, 1, 7, 30]), "h": rnd.choice([0, 1, 8, 9, 10, 23, rnd.randint(0, 23)]), "m": rnd.choice([0, 5, 8, 9, 59, rnd.randint(0, 59)]),
+             "s": rnd.choice([0, 1, 8, 9, 30, 59, rnd.randint(0, 59)])}
         if f == "sec":
-            d["s"] = rnd.choice([1, 300, 3600, 86400, 604800])
+            d["s"] = rnd.choice([1, 300, 600, 3600, 86400, 604800])
+        if f in ("sec", "hm", "hms") and rnd.random() < 0.4:
+            d["pad"] = rnd.choice([2, 3, 4])
         if f == "dhms":
             use = {u: rnd.random() < 0.6 for u in "dhms"}
             if not any(use.values()):
